@@ -284,7 +284,18 @@ impl<'t, 'a> FnGen<'t, 'a> {
                 3 => {
                     // pronoun after a naming event
                     let g = self.globals[self.t.pick(self.globals.len())].clone();
-                    match self.t.pick(3) {
+                    match self.t.pick(4) {
+                        3 => {
+                            // two different variables named back to back: the pronoun is the second
+                            let g2 = self.globals[(self.t.pick(self.globals.len().max(2) - 1) + 1) % self.globals.len()].clone();
+                            s.push(say(var(&g)));
+                            s.push(say(var(&g2)));
+                            s.push(say(bin(BinOp::Plus, strlit("it:"), it())));
+                            s.push(put(var(&g), &g2));
+                            s.push(Stmt::Inc { dest: Ident::Pronoun, amount: 1 });
+                            s.push(say(var(&g)));
+                            s.push(say(var(&g2)));
+                        }
                         0 => {
                             s.push(say(var(&g)));
                             s.push(say(it()));
